@@ -1073,3 +1073,11 @@ package leveldb
 //@     ghost gDeltaApplied = true
 //@   at before stmt delete(ref, next)
 //@     ghost gDeltaApplied = false
+
+// C08: a compaction step is reported done only after an attempt that succeeded (failed attempts are retried or the
+// goroutine exits by panic; it never returns normally after a failed attempt).
+//@ count leveldb.compactionTransactInterface.run
+//@ func (*DB).compactionTransact
+//@   props C08
+//@   safety off
+//@   ensures [C08:returns-only-after-a-successful-attempt] lastok("leveldb.compactionTransactInterface.run") == last("leveldb.compactionTransactInterface.run") && calls("leveldb.compactionTransactInterface.run") > old(calls("leveldb.compactionTransactInterface.run"))
